@@ -212,6 +212,24 @@ CLAIMED = {
        "transcribed; XV.Spec.Utf8 in front; translator, harness, Python generator/renderer (its disagreements with the reference are reported as corr:xmlwf-generator).",
   technique="Lean 4 proof over translator-generated tables and a verified reference recogniser + spec-judged model/implementation correspondence",
   ref="4/C02"),
+ "C16": dict(
+  text="Lean 4 theorems over a code-shaped model of XSerializeEngine (tags, sizes, default buffer size, level and one "
+       "descriptor per operator<</>>/writeX/readX regenerated from the source each run): every list of typed primitives, "
+       "raw blocks and strings (all encodings incl. null) written by a storing engine is read back identically, for all "
+       "lists, every buffer size >= the minimum and every buffer address; for buffer sizes that are multiples of 8 the "
+       "stream equals a declarative layout and hence does not depend on the buffer size (proved counterexample for the "
+       "unaligned writeSize/writeInt64); arbitrary object graphs incl. sharing and cycles are restored as the same graph "
+       "up to an injective pointer->pool-index renaming; a stream with another level is rejected. Store/load operation "
+       "lists of all 79 serialize methods, 5 helper pairs and 28 XTemplateSerializer pairs are regenerated from the source "
+       "and proved symmetric by decide; symmetric straight-line lists are proved to round-trip.",
+  note="PARTIAL: the pool round trip (grammar/XSModel dumps, verdicts, error-code multisets, defaulted attributes, type "
+       "names for generated DTD/XSD + instances on original vs restored vs re-restored pool, level-field corruption) relates "
+       "two runs of the implementation and has no model. Symmetry is about extracted op lists (translator trusted, "
+       "normalisations N1-N4 in tools/translate_serops.py; same-kind swaps are only caught behaviourally); derived state "
+       "(content models, regex) not modelled. Assumes same buffer size and mod-8-congruent buffers on both sides, "
+       "strLen<bufferLen for strings with buffer length, < fgMaxObjectCount objects.",
+  technique="Lean 4 proof over translator-generated constants/op lists + model/implementation byte correspondence + implementation-vs-implementation round trip",
+  ref="4/C16"),
 }
 
 def main():
